@@ -16,6 +16,7 @@ import (
 	"unsafe"
 
 	"github.com/irai/packet"
+	"github.com/irai/packet/fastlog"
 	"verif/harness/core"
 	"verif/harness/frames"
 	"verif/harness/ndpgen"
@@ -218,7 +219,10 @@ func evalGet(view, method string, b []byte) string {
 // ---------------------------------------------------------------------------------------------
 // Parse
 
-type cfg struct{ hostMAC, routerMAC, lanAddr []byte; lanBits int }
+type cfg struct {
+	hostMAC, routerMAC, lanAddr []byte
+	lanBits                     int
+}
 
 func (c cfg) key() string {
 	return fmt.Sprintf("%s %s %s %d", core.Hex(c.hostMAC), core.Hex(c.routerMAC), core.Hex(c.lanAddr), c.lanBits)
@@ -387,6 +391,14 @@ func Eval(c *core.Ctx, line string) *core.Case {
 	f := strings.Fields(line)
 	if len(f) < 2 {
 		return nil
+	}
+	// the session logger is at debug level for lines of even length (a function of the line, so a replay reproduces
+	// it) and at its default level for the others: at debug level every log line of Parse and of the host tables is
+	// formatted (output discarded), so a panicking log call is a Parse panic; the result must not depend on the level
+	if len(line)%2 == 0 {
+		packet.Logger.SetLevel(fastlog.LevelDebug)
+	} else {
+		packet.Logger.SetLevel(fastlog.LevelInfo)
 	}
 	switch f[0] {
 	case "valid":
